@@ -281,6 +281,7 @@ def lift2(op, a, b):
 
 def lift1(f, a):
     if is_opaque(a): return a
+    if type(a).__name__ == "Masked": return type(a)(lift1(f, a.arr), a.mask)      # elementwise functions commute with compaction
     if isinstance(a, ArrParam): a = a.as_arr()
     if isinstance(a, Arr):
         return Arr(a.axes, lift1(f, a.body))
